@@ -236,6 +236,7 @@ func ascii(s string) string {
 }
 
 var errTable = [][2]string{
+	{"out of gas", "out-of-gas"},
 	{"tx parse error", "undecodable"},
 	{"no transactions", "no-txs"},
 	{"too many transactions", "too-many"},
